@@ -74,16 +74,37 @@ def run_subcheck(tree, cid, seed):
     return {"check": cid, "rc": p.returncode, "violations": viol, "known": len(known), "replay": replay, "stderr": p.stderr[-400:]}
 
 
-def finding_keys(sub):
-    """call-site keys of a sub-check violation"""
+NEW_UNION = "missing-handler:new-union"
+# families whose purpose is to exhibit the missing-handler finding: only the checks whose failures carry dispatch-trace keys are run on
+# them, so that every failing input is attributed (nothing is masked behind the known finding)
+FAMILY_CHECKS = {"literal-union-member": ["C04", "C09", "C01"], "refs-open-enums": ["C04", "C09", "C01"], "refs-aliases": ["C01"]}   # (C04/C09 need a class table; cattrs cannot even generate the structure function of the new classes here)
+
+
+def finding_keys(sub, base_unions=frozenset()):
+    """call-site keys of a sub-check violation.  A union type that does not occur in the package generated from the base tree's model
+    and has no handler is attributed to the ONE root cause 'the hook table of _hooks.py is hand-written per exact union type';
+    a union of the base package that loses its handler keeps its own key (a regression, never known)."""
     r = sub.get("replay") or {}
     keys = set()
+
+    def union_key(u):
+        u = u.replace(" ", "").replace("~", "")
+        return NEW_UNION if u not in base_unions else "missing-handler:" + u
+    entries = r.get("all_unlisted")
+    if entries is not None:
+        for e in entries:
+            ks = [k for k in e.get("keys", []) if k.endswith("|leaf=no-handler")]
+            if ks:
+                keys.update(union_key(k[len("union="):-len("|leaf=no-handler")]) for k in ks)
+            else:
+                keys.add("%s:%s:%s" % (sub["check"], re.sub(r"\s+", "_", str(e.get("site") or e.get("target")))[:80], "|".join(e.get("keys", []))[:200]))
+        return sorted(keys)
     for mh in (r.get("missing_handlers") or []):
         for u in mh.get("unions", []):
-            keys.add("missing-handler:" + u.replace(" ", ""))
+            keys.add(union_key(u))
     for k in (r.get("dispatch_trace_keys") or []):
         if k.endswith("|leaf=no-handler"):
-            keys.add("missing-handler:" + k[len("union="):-len("|leaf=no-handler")])
+            keys.add(union_key(k[len("union="):-len("|leaf=no-handler")]))
     if not keys:
         inp = r.get("input") or {}
         what = json.dumps(r.get("what") or r.get("kind") or "")[:80]
@@ -116,6 +137,15 @@ def run(chk):
             m, log = evolve.random_model(mm, rng, rng.choice([2, 4, 8]))
             models.append(("random-%d-%d" % (chk.seed, i), m))
         checks = FULL_CHECKS
+    # union types of the package generated from the base tree (what the hand-written hook table was written for)
+    base_unions = set()
+    try:
+        import conv_stream as CS
+        with V.build_lock():
+            CS.build_conv(None)
+        base_unions = {u.replace(" ", "") for u in json.load(open(os.path.join(V.GEN, "pkg.json"))).get("unions", [])}
+    except Exception as e:
+        chk.extra["base_unions_unavailable"] = str(e)[-200:]
     opens, _ = V.known_findings("C06")
     known = {o["key"].replace("~", "").replace(" ", ""): o for o in opens}
     seen_known, unknown = {}, []
@@ -130,7 +160,7 @@ def run(chk):
             subs = []
             try:
                 if not any(c[0] == "python" for c in crashes):
-                    todo = [c for c in checks if not (c == "C07" and any(x[0] == "rust" for x in crashes))]
+                    todo = [c for c in FAMILY_CHECKS.get(name, checks) if not (c == "C07" and any(x[0] == "rust" for x in crashes))]
                     for cid in todo:
                         subs.append(run_subcheck(tree, cid, chk.seed))
                 # dotnet / testdata plugins must terminate successfully too
@@ -175,7 +205,7 @@ def run(chk):
             chk.count((name, s["check"]))
             chk.obligation("%s@%s" % (s["check"], name), s["rc"] == 0, "; ".join(s["violations"])[:200])
             if s["rc"] != 0:
-                ks = finding_keys(s)
+                ks = finding_keys(s, base_unions)
                 un = [k for k in ks if k not in known]
                 for k in ks:
                     if k in known:
